@@ -80,6 +80,9 @@ class DAGConcurrentManagerLock:
             condition.notify_all()
 
 
+_NODE_ALREADY_PROCESSED = object()
+
+
 def cache_key(prefix: str, _: t.Any, *args: t.Any, **kwargs: t.Any) -> t.Type[tuple]:
     """Custom func key generation excluding 'self'."""
     return hashkey(*args, prefix, **kwargs)
@@ -312,7 +315,7 @@ class DAGRunConcurrentManager(DAGRunManagerLike):
 
             await self._lock_manager.wait_for_event(node_id)
 
-            return self._node_storage.get_node_result(node_id)
+            return _NODE_ALREADY_PROCESSED
 
         self._node_storage.set_node_as_processed(node_id)
         await self.ctx.emit_on_node_start(node_id=node_id)
@@ -647,6 +650,12 @@ class DAGRunConcurrentManager(DAGRunManagerLike):
                 node_id=node_id,
                 dag=dag,
             )
+
+            if result is _NODE_ALREADY_PROCESSED:
+                # Another subgraph executes (or has executed) the node: it stores the result, saves the artifact
+                # and starts the recurrent subgraph. A duplicated request must not overwrite the stored result
+                # with the value it has seen (the result may be hidden or replaced by a new iteration meanwhile).
+                return
 
             if isinstance(result, Recurrent):
                 self._create_task(
